@@ -17,7 +17,8 @@ use retrofire_core::math::space::{Affine, Linear, Real};
 use retrofire_core::math::vec::{vec2, vec3, ProjVec4, Vec2, Vec3};
 use retrofire_core::math::{Lerp, Vary};
 use retrofire_core::render::raster::Frag;
-use retrofire_core::render::{render, Batch, Context, NdcToScreen, ViewToProj};
+use retrofire_core::render::{render, Batch, Camera, Context, Model, NdcToScreen, View, ViewToProj, World};
+use retrofire_core::geom::Mesh;
 use retrofire_core::util::buf::Buf2;
 use retrofire_core::math::color::Color4;
 
@@ -85,6 +86,46 @@ t("vec3.cross", "let _: Vec3<{2}> = v3::<{0}>().cross(&v3::<{1}>());", [B, B, B]
 t("vec2.dot", "let _ = v2::<{0}>().dot(&v2::<{1}>());", [B, B], eq)
 t("vec3.dot vec2 (never)", "let _ = v3::<{0}>().dot(&v2::<{1}>());", [B, B], lambda a, b: False)
 t("vec3.vary_to", "let _ = v3::<{0}>().vary_to(v3::<{1}>(), 4);", [B, B], eq)
+# --- std operator / iterator traits: every way to reach an addition, negation or scaling ---------------
+t("iter sum vec3 -> vec3", "let _: Vec3<{1}> = [v3::<{0}>(), v3::<{0}>()].into_iter().sum();", [B, B], eq)
+t("iter sum pt3 -> vec3 (never)", "let _: Vec3<{1}> = [p3::<{0}>(), p3::<{0}>()].into_iter().sum();", [B, B], lambda a, b: False)
+t("iter sum pt3 -> pt3 (never)", "let _: Point3<{1}> = [p3::<{0}>(), p3::<{0}>()].into_iter().sum();", [B, B], lambda a, b: False)
+t("iter sum vec3 -> pt3 (never)", "let _: Point3<{1}> = [v3::<{0}>(), v3::<{0}>()].into_iter().sum();", [B, B], lambda a, b: False)
+t("iter sum pt2 -> vec2 (never)", "let _: Vec2<{1}> = [p2::<{0}>(), p2::<{0}>()].into_iter().sum();", [B, B], lambda a, b: False)
+t("iter sum vec2 -> vec3 (never)", "let _: Vec3<{1}> = [v2::<{0}>(), v2::<{0}>()].into_iter().sum();", [B, B], lambda a, b: False)
+t("neg vec3", "let _: Vec3<{1}> = -v3::<{0}>();", [B, B], eq)
+t("neg pt3 (never)", "let _ = -p3::<{0}>();", [B], lambda a: False)
+t("vec3 * scalar", "let _: Vec3<{1}> = v3::<{0}>() * 2.0;", [B, B], eq)
+t("scalar * vec3", "let _: Vec3<{1}> = 2.0 * v3::<{0}>();", [B, B], eq)
+t("vec3 / scalar", "let _: Vec3<{1}> = v3::<{0}>() / 2.0;", [B, B], eq)
+t("pt3 * scalar (never)", "let _ = p3::<{0}>() * 2.0;", [B], lambda a: False)
+t("scalar * pt3 (never)", "let _ = 2.0 * p3::<{0}>();", [B], lambda a: False)
+t("pt3 / scalar (never)", "let _ = p3::<{0}>() / 2.0;", [B], lambda a: False)
+t("vec3 * vec3 (never)", "let _ = v3::<{0}>() * v3::<{0}>();", [B], lambda a: False)
+t("pt3 += pt3 (never)", "let mut a = p3::<{0}>(); a += p3::<{1}>();", [B, B], lambda a, b: False)
+t("Linear::mul pt3 (never)", "let _ = Linear::mul(&p3::<{0}>(), 2.0);", [B], lambda a: False)
+t("Linear::neg pt3 (never)", "let _ = Linear::neg(&p3::<{0}>());", [B], lambda a: False)
+t("Linear::mul vec3", "let _: Vec3<{1}> = Linear::mul(&v3::<{0}>(), 2.0);", [B, B], eq)
+t("pt3.distance", "let _: f32 = p3::<{0}>().distance(&p3::<{1}>());", [B, B], eq)
+t("pt3.distance vec3 (never)", "let _ = p3::<{0}>().distance(&v3::<{0}>());", [B], lambda a: False)
+t("pt3.clamp", "let _ = p3::<{0}>().clamp(&p3::<{1}>(), &p3::<{2}>());", [B, B, B], lambda a, b, c: a == b == c)
+t("vec3.clamp", "let _ = v3::<{0}>().clamp(&v3::<{1}>(), &v3::<{2}>());", [B, B, B], lambda a, b, c: a == b == c)
+t("pt3.to_vec", "let _: Vec3<{1}> = p3::<{0}>().to_vec();", [B, B], eq)
+t("vec3.to_pt", "let _: Point3<{1}> = v3::<{0}>().to_pt();", [B, B], eq)
+t("pt3 = vec3 (never)", "let _: Point3<{0}> = v3::<{0}>();", [B], lambda a: False)
+# --- mesh builder / camera: transforms applied to stored vertices ------------------------------------------
+MB = ["Model", "World", "BA"]
+t("Builder::transform", "let _ = Mesh::<()>::builder().transform(&m4::<{0}, {1}>());", [MB, MB], lambda a, b: a == b == "Model")
+t("Mesh::new basis", "let _: Mesh<(), {1}> = Mesh::new([], [vertex(p3::<{0}>(), ())]);", [MB, MB], eq)
+CAMR = '''let vs = |v: Vertex3<f32, {0}>, (m, _): (&Mat4x4<RealToProj<{2}>>, ())| vertex(m.apply(&v.pos), v.attrib);
+    let fs = |f: Frag<f32>| -> Option<Color4> {{ None }};
+    let sh = retrofire_core::render::shader::Shader::new(vs, fs);
+    let mut tgt = Buf2::<u32>::new((4, 4));
+    let verts: [Vertex3<f32, {0}>; 0] = [];
+    let tris: [Tri<usize>; 0] = [];
+    let cam = Camera::new((4, 4)).mode(m4::<World, View>());
+    cam.render(tris, verts, &m4::<{1}, {3}>(), &sh, (), &mut tgt, &Context::default());'''
+t("Camera::render bases", CAMR, [["Model", "BA"], ["Model", "BA"], ["Model", "BA"], ["World", "View"]], lambda vb, mb, sb, dst: vb == mb == sb and dst == "World")
 # --- matrices: apply ----------------------------------------------------------------------------
 t("mat4.apply vec3", "let _: Vec3<{3}> = m4::<{0}, {1}>().apply(&v3::<{2}>());", [B3, B3, B3, B3], lambda s, d, x, r: x == s and r == d)
 t("mat4.apply_pt pt3", "let _: Point3<{3}> = m4::<{0}, {1}>().apply_pt(&p3::<{2}>());", [B3, B3, B3, B3], lambda s, d, x, r: x == s and r == d)
